@@ -367,5 +367,31 @@ Definition find_best (fix7 fix8 : bool) (st : kstate) : split :=
 Definition find_best_asis (st : kstate) : split := find_best false false st.
 Definition find_best_fixed (st : kstate) : split := find_best true true st.
 
+(* kauri.py::Kauri.fit, the greedy loop seen from the split search:
+     while last_gain > 0 and n_leaves < max_leaves and len(leaves_to_explore) != 0:
+         best_split = find_best_split(...); last_gain = best_split.gain
+         if last_gain > 0: <apply the split, update the leaves to explore, draw the next feature subset>
+   [next st c] is the state of the following iteration (apply_split plus the structural bookkeeping of property
+   C09: which leaves stay explorable, which features are drawn); the loop is only about WHY it stops. *)
+Inductive stop_reason : Type := StopNoGain | StopMaxLeaves | StopNoLeaf | OutOfFuel.
+Fixpoint fit_loop (fix7 fix8 : bool) (fuel max_leaves : nat) (next : kstate -> cand -> kstate) (st : kstate)
+  : kstate * stop_reason :=
+  match fuel with
+  | O => (st, OutOfFuel)
+  | S fu =>
+      if negb (length (ks_leaves st) <? max_leaves) then (st, StopMaxLeaves)
+      else match ks_explore st with
+           | [] => (st, StopNoLeaf)
+           | _ :: _ =>
+               let r := find_best fix7 fix8 st in
+               if nltb o (n0 o) (sp_gain r)
+               then match sp_cand r with
+                    | Some c => fit_loop fix7 fix8 fu max_leaves next (next st c)
+                    | None => (st, StopNoGain)
+                    end
+               else (st, StopNoGain)
+           end
+  end.
+
 End KauriGain.
 (* EXTRACT: kstate cand split sigma term members objective apply_split gain csize candidates best_spec_pair best_spec find_best find_best_asis find_best_fixed compute_all_splits pair_select upd_track run_splits gains_along left_part right_part target_pairs *)
